@@ -8,7 +8,11 @@ BASE_KINDS = ["defvar", "deffun", "assign", "delete", "mut_objproto", "mut_math"
 REDECL_KINDS = ["redecl", "redecl_f", "redecl_or", "redecl_dead", "redecl_ieval", "redecl_newfn", "redecl_newfn_init",
                 "redecl_throw"]
 INV_KINDS = ["inv_mut", "inv_del", "inv_throw", "inv_ieval", "inv_loop"]
-ALL_KINDS = BASE_KINDS + REDECL_KINDS + INV_KINDS
+TEXT_KINDS = ["tx_make", "tx_makei", "tx_mut"]
+KEPT_KINDS = ["kb_make", "kb_other", "kb_other_err"]
+CARRY_KINDS = ["cv_make", "cv_use", "cv_catch", "cv_catchfn", "cv_throw", "cv_loop", "cv_work", "cv_mem"]
+H_KINDS = TEXT_KINDS + KEPT_KINDS + CARRY_KINDS          # the families that work on the global h
+ALL_KINDS = BASE_KINDS + REDECL_KINDS + INV_KINDS + H_KINDS
 # everything that defines, re-declares or reads the two names, plus one error of each class: longer histories
 NAME_KINDS = ["defvar", "deffun", "assign", "set", "get", "read", "newfn", "ieval", "throw", "loop", "syntax"] + REDECL_KINDS
 SUB_KINDS = ["defvar", "deffun", "assign", "delete", "mut_objproto", "throw", "loop", "recurse", "syntax", "ieval",
@@ -18,7 +22,8 @@ ACTIONS = ["Effect", "Exit", "EvalDefVar", "EvalDefFun", "EvalAssign", "EvalDele
            "EvalIndirect", "EvalIndirectLoop", "EvalNewFunction", "EvalRead", "EvalReenter", "Set", "Get",
            "EvalRedecl", "EvalRedeclF", "EvalRedeclOr", "EvalRedeclDead", "EvalRedeclIndirect", "EvalRedeclNewFn",
            "EvalRedeclNewFnInit", "EvalRedeclThrow", "EvalInvMut", "EvalInvDel", "EvalInvThrow", "EvalInvIndirect",
-           "EvalInvLoop"]
+           "EvalInvLoop", "EvalTxMake", "EvalTxMakeI", "EvalTxMut", "EvalKbMake", "EvalKbOther", "EvalKbOtherErr",
+           "EvalCvMake", "EvalCvUse", "EvalCvCatch", "EvalCvCatchFn", "EvalCvThrow", "EvalCvLoop", "EvalCvWork", "EvalCvMem"]
 
 
 def consts(nc, maxn, vals, kinds):
@@ -27,7 +32,8 @@ def consts(nc, maxn, vals, kinds):
 
 
 MC_CFG = ("SPECIFICATION Spec\n%s" "CONSTRAINT Bound\nINVARIANT TypeOK PointerClear Recovery %s\n"
-          "PROPERTY Frame EffectsPersist AtomicAgrees SyntaxNoEffect NestingBalanced RedeclKeeps\nCHECK_DEADLOCK FALSE\n")
+          "PROPERTY Frame EffectsPersist AtomicAgrees SyntaxNoEffect NestingBalanced RedeclKeeps FreshObjects KeptBindings\n"
+          "CHECK_DEADLOCK FALSE\n")
 ENUM_CFG = "INIT EnumInit\nNEXT EnumNext\n%sCHECK_DEADLOCK FALSE\n"
 TRACE_CFG = ("INIT TraceInit\nNEXT TraceNext\nCONSTRAINT TraceEmit\nINVARIANT TraceTypeOK\n"
              + consts(3, 100, [1], []) + "CHECK_DEADLOCK FALSE\n")
@@ -43,10 +49,15 @@ def model_check(rep):
         runs.append(("catalogue-len6", consts(2, 6, [1], BASE_KINDS), "", False))
         runs.append(("whole-catalogue-len2-coverage", consts(2, 2, [1], ALL_KINDS), "RecoveryBehaviour", True))
         runs.append(("names-inventory-len5", consts(2, 5, [1], NAME_KINDS + INV_KINDS[:3]), "", False))
+        # D: the three families that work on a value kept in the global h (made from text / kept binding / carried value),
+        #    with the definitions, reads and errors of g they interact with
+        runs.append(("carried-values-len6", consts(2, 6, [1], H_KINDS + ["defvar", "read", "throw"]), "OwnInterpreter", False))
     else:
         runs.append(("catalogue-len6-coverage", consts(2, 6, [1], BASE_KINDS), "", True))
         runs.append(("whole-catalogue-len4-coverage", consts(2, 4, [1], ALL_KINDS), "", True))
         runs.append(("names-inventory-len7", consts(2, 7, [1], NAME_KINDS + INV_KINDS), "", False))
+        runs.append(("carried-values-len8", consts(2, 8, [1], H_KINDS + ["defvar", "read", "throw"]), "OwnInterpreter", False))
+        runs.append(("carried-values-2values-len5", consts(2, 5, [1, 2], H_KINDS), "OwnInterpreter RecoveryBehaviour", False))
         runs.append(("subcatalogue-2values-len6", consts(2, 6, [1, 2], SUB_KINDS), "RecoveryBehaviour", False))
         runs.append(("catalogue-2values-3contexts-len3", consts(3, 3, [1, 2], BASE_KINDS), "RecoveryBehaviour", False))
         runs.append(("whole-catalogue-2values-3contexts-len2", consts(3, 2, [1, 2], ALL_KINDS), "RecoveryBehaviour", False))
@@ -80,20 +91,21 @@ def discover_inventory(rep):
 
 
 def enumerate_histories(rep, nc, length, alphabet, tag, inv_file=None, inv_sub="all", novel=False):
-    env = {"ALPHABET": alphabet, "NOVEL": "1" if novel else "0"}
+    """-> (histories as JSON text, the parameters the specification printed: limits, gap, names, work, forms)"""
+    env = {"ALPHABET": alphabet, "NOVEL": "1" if novel else "0", "INV_SUB": inv_sub}
     if inv_file:
-        env.update({"INV_FILE": inv_file, "INV_SUB": inv_sub})
+        env.update({"INV_FILE": inv_file})
     res = tlc.run(rep.pid, "C12", ENUM_CFG % consts(nc, length, [1], []), env=env,
                   timeout=1500, tag=tag, heap="4g")
     rep.add_tlc("C12.Enum(%s,len=%d,nc=%d)" % (alphabet, length, nc), res)
     limits, seen, hs, invrec = None, set(), [], None
     for r in res.records:
         if "limits" in r:
-            limits = r["limits"]
+            limits = r
         elif "inv_ok" in r:
             invrec = r
         elif "h" in r:
-            k = json.dumps({"h": r["h"], "tj": r["tj"], "late": r["late"]}, separators=(",", ":"))
+            k = json.dumps({"h": r["h"], "tj": r["tj"], "late": r["late"], "cls": r["cls"]}, separators=(",", ":"))
             if k not in seen:
                 seen.add(k)
                 hs.append(k)              # kept as text: half a million histories as dicts would cost gigabytes
@@ -115,7 +127,7 @@ def simulate_histories(rep, nc, length, num, tag):
     seen, hs = set(), []
     for r in res.records:
         if "h" in r:
-            k = json.dumps({"h": r["h"], "tj": r["tj"], "late": r["late"]}, separators=(",", ":"))
+            k = json.dumps({"h": r["h"], "tj": r["tj"], "late": r["late"], "cls": r["cls"]}, separators=(",", ":"))
             if k not in seen:
                 seen.add(k)
                 hs.append(k)
@@ -135,7 +147,10 @@ def show(h):
 def run(rep):
     T = {}
     t0 = time.time()
-    model_check(rep)
+    # triage aid: C12_FAMILIES=text,carry runs only these enumerations (no model checking; never exhaustive)
+    only = [a for a in os.environ.get("C12_FAMILIES", "").split(",") if a]
+    if not only:
+        model_check(rep)
     T['model_check'] = round(time.time() - t0, 1)
     t0 = time.time()
     # ---- S->C: every history of exactly L events (all shorter ones are their prefixes) ----
@@ -144,33 +159,53 @@ def run(rep):
     # (contexts, events, alphabet, inventory sub-grid).  Families: H base catalogue; R re-declaration of names that may
     # exist ("redecl" = base catalogue + every re-declaration form, "redecl1" = the kinds that touch the two names, one
     # context, longer); I isolation of every object of the built-in object graph ("inv": target x late creation x history)
+    # T objects made from text at run time ("text": path from the made object x late creation x history); K bindings kept
+    # alive by closures ("kept": binding kind x routes x history); V values made by one eval and used by later ones
+    # ("carry": carrier x use x history)
+    FAMILY = {"inv": "inv", "invfull": "inv", "text": "text", "kept": "kept", "carry": "carry"}
     if rep.tier == "quick":
-        plan = [(2, 3, "full", None), (2, 2, "redecl", None), (1, 3, "redecl1", None), (2, 2, "inv", "quick")]
+        plan = [(2, 3, "full", None), (2, 2, "redecl", None), (1, 3, "redecl1", None), (2, 2, "inv", "quick"),
+                (2, 3, "text", "quick"), (2, 3, "kept", "quick"), (2, 3, "carry", "quick")]
     else:
         plan = [(2, 3, "redecl", None), (2, 4, "core", None), (1, 4, "redecl1", None),
-                (2, 3, "inv", "all"), (2, 2, "invfull", "all")]
-    limits = None
+                (2, 3, "inv", "all"), (2, 2, "invfull", "all"),
+                (2, 4, "text", "all"), (2, 3, "kept", "all"), (2, 4, "carry", "all")]
+    params = None
+    if only:
+        plan = [pl for pl in plan if pl[2] in only]
     for nc, length, alpha, sub in plan:
-        hs, limits = enumerate_histories(rep, nc, length, alpha, "enum_%s_%d" % (alpha, length),
-                                         inv_file=inv_file if sub else None, inv_sub=sub or "all",
-                                         novel=(rep.tier == "quick" and alpha in ("redecl", "redecl1")))
-        if len(hs) < 1000:
+        fam = FAMILY.get(alpha, "")
+        novel = rep.tier == "quick" and alpha in ("redecl", "redecl1") or alpha == "kept"
+        hs, params = enumerate_histories(rep, nc, length, alpha, "enum_%s_%d" % (alpha, length),
+                                         inv_file=inv_file if fam in ("inv", "text") else None, inv_sub=sub or "all",
+                                         novel=novel)
+        if len(hs) < (1000 if not fam else 300):
             raise Machinery("enumeration produced only %d histories" % len(hs))
-        what = ("(inventory target x late creation) x all histories" if sub else "all histories")
+        what = {"inv": "(inventory target x late creation) x all histories",
+                "text": "(way of making an object from text x path from it x late creation) x all histories",
+                "kept": "(kind of binding x route of the making program x route of the later program) x all histories with a "
+                        "making event", "carry": "(carrier x use) x all histories"}.get(fam, "all histories")
         if rep.tier == "quick" and alpha in ("redecl", "redecl1"):
             what = "all histories with at least one re-declaration (the others are in the base-catalogue space)"
         rep.spaces.append({"space": "%s of %d events over %d context(s), alphabet %s%s (TLC-enumerated; "
                                     "every shorter history is a probed prefix)"
-                                    % (what, length, nc, alpha, ", inventory sub-grid %s" % sub if sub else ""),
+                                    % (what, length, nc, alpha, ", sub-grid %s" % sub if sub else ""),
                            "cases": len(hs), "complete": True})
-        cases += [(nc, h) for h in hs]
-    if rep.tier == "thorough":
+        forms = params.get("forms") or []
+        if fam in ("kept", "carry"):
+            if not forms:
+                raise Machinery("the specification did not print the forms of family %s" % fam)
+            used = {json.loads(h)["tj"] for h in hs}
+            rep.notes.setdefault("forms", {})[alpha] = {"in_specification": len(forms), "enumerated": len(used)}
+        cases += [(nc, fam, forms if fam in ("kept", "carry") else None, h) for h in hs]
+    limits = params["limits"]
+    if rep.tier == "thorough" and not only:
         hs = simulate_histories(rep, 3, 60, 2000, "sim60")
         if len(hs) < 500:
             raise Machinery("simulation produced only %d long histories" % len(hs))
         rep.spaces.append({"space": "seeded random histories of 60 events over 3 contexts (TLC -simulate, seed %d)" % rep.seed,
                            "cases": len(hs), "complete": False})
-        cases += [(3, h) for h in hs]
+        cases += [(3, "", None, h) for h in hs]
     T['enumerate'] = round(time.time() - t0, 1)
     T['replay'] = T['validate'] = 0.0
     # ---- replay on real contexts (probing everything after every step), then C->S trace validation; in chunks ----
@@ -183,11 +218,14 @@ def run(rep):
     for b in range(0, len(cases), CH):
         t0 = time.time()
         part = []
-        for i, (nc, h) in enumerate(cases[b:b + CH]):
+        for i, (nc, fam, forms, h) in enumerate(cases[b:b + CH]):
             rec = json.loads(h)
-            case = {"id": b + i, "nc": nc, "limits": limits[:nc], "h": rec["h"], "tj": rec["tj"], "late": rec["late"]}
-            if rec["tj"]:
+            case = {"id": b + i, "nc": nc, "limits": limits[:nc], "h": rec["h"], "tj": rec["tj"], "late": rec["late"],
+                    "fam": fam, "cls": rec["cls"], "gap": params["gap"], "names": params["names"], "work": params["work"]}
+            if fam in ("inv", "text"):
                 case["target"] = inventory[rec["tj"] - 1]        # the path the specification chose, for rendering
+            elif fam:
+                case["form"] = forms[rec["tj"] - 1]              # the form the specification chose
             part.append(case)
         traces = engine.run_cases(rep.pid, part, driver="checks.c12_driver:replay", timeout=3000, tag="eng_%d" % (b // CH))
         if len(traces) != len(part):
@@ -208,14 +246,16 @@ def run(rep):
         hist = {c["id"]: c["h"] for c in part}
         tgt = {c["id"]: ("[%s %s%s%s] " % (c["target"]["via"], c["target"]["root"],
                                             "." + c["target"]["mem"] if c["target"]["mem"] else "",
-                                            " late" if c["late"] else "")) if c["tj"] else "" for c in part}
+                                            " late" if c["late"] else "")) if "target" in c
+                        else ("[%s] " % " ".join(str(v) for k, v in sorted(c["form"].items()) if v)) if "form" in c else ""
+               for c in part}
         for tid in sorted(got):
             v, t = got[tid], bytid[tid]
             if v["n"] != len(t["ev"]):
                 raise Machinery("trace %d: %d of %d events consumed" % (tid, v["n"], len(t["ev"])))
             if v["ok"] and v.get("devs"):
                 # every observation is explained, some of them only by a listed deviation (as-is rule of the engine)
-                at = next(i for i, e in enumerate(t["ev"]) if e["k"] == "reenter" and e["r"] == 0)
+                at = v["devat"] - 1
                 rep.mismatch("%s%s @%d deviation" % (tgt[tid], show(hist[tid])[:300], at + 1),
                              {"deviation": v["devs"], "event": t["ev"][at], "history": hist[tid][:at + 1]}, dev=v["devs"])
                 continue
@@ -236,6 +276,9 @@ def run(rep):
     T = {k: round(v, 1) for k, v in T.items()}
     rep.notes['stage_wall_s'] = T
     rep.evaluations = nev
+    if only:
+        rep.exhaustive = False
+        return
     selftest(rep, keep)
     rep.exhaustive = True
     rep.notes["probe"] = ("after every event, for every context: get g, typeof g, eval g, get f, typeof f, f(), "
